@@ -16,6 +16,8 @@
 (***************************************************************************)
 EXTENDS NlBig, TLC, Json, IOUtils
 
+Fl == INSTANCE NlFloat
+
 Recs == ndJsonDeserialize(IOEnv.RECS)
 VARIABLE pid
 Init == pid \in 1..Len(Recs)
@@ -49,9 +51,9 @@ Good ==
     [] r.k = "arr" -> r.dec = r.val /\ r.addr8 = 0 /\ r.tag = 6 /\ r.type = "array" /\ r.heap
     [] r.k = "eq" ->
          \* values of different type or different content never compare equal, equal ones always do
-         \* (NaN excepted: feq says what IEEE equality of the two floats is)
+         \* (NaN excepted: two floats are equal exactly when NlFloat's IEEE comparison of their bit fields says so)
          LET same == r.x.kind = r.y.kind /\
-                     (IF r.x.kind = "float" THEN r.feq ELSE r.x.key = r.y.key)
+                     (IF r.x.kind = "float" THEN Fl!Compare("==", r.x.f, r.y.f) ELSE r.x.key = r.y.key)
          IN r.eq = same
 
 Report ==
